@@ -253,6 +253,68 @@ fn gen_path(rng: &mut Rng) -> RelativePath {
     }
 }
 
+/// multi-element paths in which each position in turn holds an element whose TEXT is exactly 255 / 256 / 257 bytes
+/// (the limit is 256), with ASCII, multi-byte and escaped characters at the boundary, for `/`, `.` and `<…>` elements
+fn limit_paths() -> Vec<RelativePath> {
+    let el = |ref_id: NodeId, inv: bool, sub: bool, ns: u16, name: &str| RelativePathElement {
+        reference_type_id: ref_id,
+        is_inverse: inv,
+        include_subtypes: sub,
+        target_name: QualifiedName::new(ns, name),
+    };
+    let slash = || -> NodeId { ReferenceTypeId::HierarchicalReferences.into() };
+    let dot = || -> NodeId { ReferenceTypeId::Aggregates.into() };
+    let text_len = |e: &RelativePathElement| String::from(e).len();
+    // builders of a long element: (prefix-making element with an empty-ish name, tail)
+    let tails: [&str; 8] = ["a", "é", "€", "😀", "\u{80}", "\u{800}", ".", "&"];
+    let mut out = vec![];
+    for total in [255usize, 256, 257] {
+        for tail in tails {
+            for kind in 0..4 {
+                let mk = |name: &str| match kind {
+                    0 => el(slash(), false, true, 0, name),
+                    1 => el(dot(), false, true, 10, name),
+                    2 => el(ReferenceTypeId::HasChild.into(), true, false, 65535, name),
+                    _ => el(NodeId::new(2, "My.Ref"), false, true, 1, name),
+                };
+                // pad with 'a' until the element's own printed text has the wanted length
+                let base = text_len(&mk(tail));
+                if base > total {
+                    continue;
+                }
+                let name = format!("{}{}", "a".repeat(total - base), tail);
+                let long = mk(&name);
+                if text_len(&long) != total {
+                    continue;
+                }
+                // kinds 2 and 3 only with two tails (keeps the number of ops down)
+                if kind >= 2 && !(tail == "a" || tail == "é") {
+                    continue;
+                }
+                for n in [2usize, 3, 5] {
+                    for pos in 0..n {
+                        let es: Vec<RelativePathElement> = (0..n)
+                            .map(|i| {
+                                if i == pos {
+                                    long.clone()
+                                } else {
+                                    match i % 3 {
+                                        0 => el(slash(), false, true, 0, "x"),
+                                        1 => el(dot(), false, true, 2, "y"),
+                                        _ => el(ReferenceTypeId::Organizes.into(), false, false, 0, "z"),
+                                    }
+                                }
+                            })
+                            .collect();
+                        out.push(RelativePath { elements: Some(es) });
+                    }
+                }
+            }
+        }
+    }
+    out
+}
+
 const HAND_WRITTEN: &[&str] = &[
     "", "/", ".", "<", ">", "&", "/&", "//", "/.", "/1:foo", "/10:foo", "/65535:foo", "/65536:foo", "/+:foo", "/+1:foo", "/:foo", "/1:", "/1:&", "/a&",
     "<HasChild>1:foo", "<#HasChild>foo", "<!HasChild>foo", "<#!HasChild>foo", "<!#HasChild>foo", "<##HasChild>foo", "<0:HasChild>foo",
@@ -281,6 +343,16 @@ impl Prop for C05 {
             for total in [256usize, 257] {
                 out.push("reset".into());
                 out.push(format!("parse {}", shex(&format!("/{}{}", "a".repeat(total - 1 - c.len_utf8()), c))));
+            }
+        }
+        // every position of a multi-element path at the limit: value form (round-trip oracle) and text form
+        for (i, p) in limit_paths().iter().enumerate() {
+            out.push("reset".into());
+            out.push(format!("rt {}", path_out(p)));
+            if i % 3 == 0 {
+                let text = String::from(p);
+                out.push(format!("parse {}", shex(&text)));
+                out.push(format!("parsenr {}", shex(&text)));
             }
         }
         // token length limit: 255 / 256 / 257 bytes, ASCII and multi-byte
@@ -343,7 +415,11 @@ impl Runner for R {
                 let f = features(&p);
                 let class = if f.is_empty() { "plain".to_string() } else { f.join("+") };
                 // more than 32 elements is outside the property's quantifier: compared with the model, not judged
-                let outside = f.contains(&"too-many");
+                // so is an element whose own text form (as the crate prints it) exceeds the 256-byte token limit
+                let too_long = p.elements.as_ref().map_or(false, |es| {
+                    es.iter().any(|e| catch_unwind(AssertUnwindSafe(|| String::from(e).len() > 256)).unwrap_or(false))
+                });
+                let outside = f.contains(&"too-many") || too_long;
                 let printed = match catch_unwind(AssertUnwindSafe(|| String::from(&p))) {
                     Err(_) => return ("panic".into(), Verdict::fail("no_panic", &class, "String::from(&path) panicked")),
                     Ok(s) => s,
